@@ -115,6 +115,27 @@ func (ex *Exec) fireTimer(ts *timerState) {
 	}
 }
 
+// fireDueCallbacks runs scheduled callbacks (AfterFunc, zzsym.At) whose
+// instant has been reached: they model concurrent activity, which does not
+// wait for the code under test to block.
+func (ex *Exec) fireDueCallbacks() {
+	if ex.inCallback {
+		return
+	}
+	for i := 0; i < len(ex.timers); i++ {
+		ts := ex.timers[i].Aux.(*timerState)
+		if !ts.armed || ts.fn == nil {
+			continue
+		}
+		due := ex.intBinop(token.LEQ, types.Typ[types.Int64], ts.deadline, ex.now())
+		if ex.branch(due) {
+			ex.inCallback = true
+			ex.fireTimer(ts)
+			ex.inCallback = false
+		}
+	}
+}
+
 // advanceTime moves the clock to the earliest armed deadline and fires that
 // timer.  Returns false if no timer is armed.
 func (ex *Exec) advanceTime() bool {
@@ -128,17 +149,44 @@ func (ex *Exec) advanceTime() bool {
 	if len(armed) == 0 {
 		return false
 	}
-	// choose the timer that fires first: fork over candidates, assuming the
-	// chosen one is minimal.
+	// choose the timer that fires first.  Canonical choice: the first timer
+	// with the minimal deadline (ties are resolved by the select that polls the
+	// channels afterwards).  Only candidates that can be minimal are explored.
 	k := 0
 	if len(armed) > 1 {
-		k = ex.choose(len(armed))
-		for i, o := range armed {
-			if i == k {
-				continue
+		conds := make([]*Term, len(armed))
+		for c := range armed {
+			t := TTrue
+			for i, o := range armed {
+				if i == c {
+					continue
+				}
+				op := token.LEQ
+				if i < c {
+					op = token.LSS
+				}
+				t = And(t, boolTerm(ex.intBinop(op, types.Typ[types.Int64], armed[c].deadline, o.deadline)))
 			}
-			ex.assume(ex.intBinop(token.LEQ, types.Typ[types.Int64], armed[k].deadline, o.deadline))
+			conds[c] = t
 		}
+		if ex.pos < len(ex.decisions) {
+			k = ex.choose(len(armed))
+		} else {
+			var cands []int
+			for c, t := range conds {
+				if t.S == "false" {
+					continue
+				}
+				if t.S == "true" || ex.sol.Check(t) != Unsat {
+					cands = append(cands, c)
+				}
+			}
+			if len(cands) == 0 {
+				ex.end("infeasible", "no timer can be minimal")
+			}
+			k = ex.chooseAmong(cands)
+		}
+		ex.assume(mkBool(conds[k]))
 	}
 	ex.advanceTo(armed[k].deadline)
 	ex.fireTimer(armed[k])
@@ -334,6 +382,10 @@ func registerTime(e *Engine) {
 		ex.side["freezeTimers"] = true
 		return nil
 	}
+	x["zzsym.SetClockNs"] = func(ex *Exec, c *frame, f *ssa.Function, a []Value) Value {
+		ex.clock = a[0].(Int).Term()
+		return nil
+	}
 	x["zzsym.FreezeClock"] = func(ex *Exec, c *frame, f *ssa.Function, a []Value) Value {
 		ex.side["freezeClock"] = true
 		return nil
@@ -378,4 +430,5 @@ func (ex *Exec) sleep(d Int) {
 		}
 	}
 	ex.clock = ex.i64(token.ADD, ex.now(), d).Term()
+	ex.fireDueCallbacks()
 }
